@@ -96,7 +96,8 @@ type zvgGRun struct {
 	IP      string      `json:"ip"`
 	Tid     string      `json:"tid"`
 	Algo    int         `json:"algo"`
-	Val     uint64      `json:"val"`
+	Val     uint64      `json:"val"`  // configured validity; in recorded scenarios capped at 2^31-1 (TLC integers)
+	Valx    string      `json:"valx"` // the configured validity as decimal text (any uint64); "" = Val
 	Ids     []zvgGIdent `json:"ids"`
 	Dir     zvgGDir     `json:"dir"`
 	Ans     string      `json:"ans"`
@@ -189,6 +190,7 @@ type zvgGCsr struct {
 	H         int      `json:"h"`
 	Prins     []string `json:"prins"`
 	Val       uint64   `json:"val"`
+	Valx      string   `json:"valx"`
 	Exts      []string `json:"exts"`
 	ExtsEmpty bool     `json:"extsempty"`
 	Ident     string   `json:"ident"`
@@ -431,6 +433,13 @@ func (p *zvgGsProxy) loop() {
 			return
 		}
 	}
+}
+
+func zvgCapVal(v uint64) uint64 {
+	if v > 2147483647 {
+		return 2147483647
+	}
+	return v
 }
 
 func zvgCapLife(l uint32) int64 {
@@ -677,7 +686,11 @@ func (f *zvgFakeCA) PostUserSSHCertificate(ctx context.Context, req *proto.SSHCe
 	now := uint64(time.Now().Unix())
 	for j := 0; j < c.ncert; j++ {
 		*c.serial++
-		ct := verifh.Mint(c.ca, verifh.CertSpec{Key: pub, KeyID: req.KeyId, ValidAfter: now - 60, ValidBefore: now + req.Validity,
+		vb := now + req.Validity
+		if vb < now {
+			vb = ssh.CertTimeInfinity
+		}
+		ct := verifh.Mint(c.ca, verifh.CertSpec{Key: pub, KeyID: req.KeyId, ValidAfter: now - 60, ValidBefore: vb,
 			Principals: req.Principals, Serial: *c.serial, Exts: req.Extensions})
 		line := strings.TrimSuffix(string(ssh.MarshalAuthorizedKey(ct)), "\n")
 		if j%2 == 1 {
@@ -788,7 +801,7 @@ func (c *zvgStubCA) Sign(ctx context.Context, req *proto.SSHCertificateSigningRe
 	for _, p := range req.Principals {
 		rec.Prins = append(rec.Prins, zvgHx(p))
 	}
-	rec.Val = req.Validity
+	rec.Val, rec.Valx = zvgCapVal(req.Validity), strconv.FormatUint(req.Validity, 10)
 	for k, v := range req.Extensions {
 		rec.Exts = append(rec.Exts, k)
 		if v != "" {
@@ -1126,6 +1139,12 @@ func (g *zvgGInst) fileFor(cls string) ([]byte, string) {
 
 func (g *zvgGInst) runOne(ri int, run *zvgGRun, pre []zvgGID) (*zvgGRec, []zvgGID, error) {
 	r := g.rnd
+	// the configured validity: any uint64 (decimal text in the plan), loaded by the real configuration loader
+	if run.Valx != "" {
+		if v, err := strconv.ParseUint(run.Valx, 10, 64); err == nil {
+			run.Val = v
+		}
+	}
 	// ---- concrete inputs (pairwise distinct) ----
 	cv := zvgGConc{}
 	used := map[string]bool{}
@@ -1532,6 +1551,7 @@ func (g *zvgGInst) runOne(ri int, run *zvgGRun, pre []zvgGID) (*zvgGRec, []zvgGI
 	sc.Ln, sc.Ru, sc.Rh, sc.IP, sc.Tid = zvgHx(cv.ln), zvgHx(cv.ru), zvgHx(cv.rh), zvgHx(cv.ip), zvgHx(cv.tid)
 	sc.Dir = dirRec
 	sc.Wire = wire
+	sc.Val, sc.Valx = zvgCapVal(run.Val), strconv.FormatUint(run.Val, 10)
 	if wire != "json" {
 		sc.Hard = map[string]bool{"1": true, "t": true, "T": true, "TRUE": true, "true": true, "True": true}[wire]
 	}
@@ -1678,6 +1698,12 @@ func zvgRandomCase(n int, maxRuns int) zvgGCase {
 				run.Val = 315360000
 			}
 		}
+		if r.Intn(10) == 0 {
+			// representation boundaries of the types the validity passes through (all exact JSON numbers)
+			run.Val = []uint64{0, 1, 2147483647, 2147483648, 4294967295, 4294967296, 4294967296 + 43200, 4294967296 + 1, 8589934592 + 7,
+				9007199254740991, 9007199254740992, 9223372036854775808}[r.Intn(12)]
+		}
+		run.Valx = strconv.FormatUint(run.Val, 10)
 		// key identifiers: at most one entry per algorithm
 		forms := []string{"lower", "upper", "mixed", "num"}
 		for a := 0; a < 5; a++ {
@@ -1687,6 +1713,13 @@ func zvgRandomCase(n int, maxRuns int) zvgGCase {
 			}
 			if r.Intn(6) < p {
 				run.Ids = append(run.Ids, zvgGIdent{A: a, F: forms[r.Intn(4)], ID: fmt.Sprintf("slot-%d-%d", a, r.Intn(1000))})
+			}
+		}
+		if r.Intn(20) == 0 {
+			// a CA key algorithm number beyond the named ones, configured by number (or not at all)
+			run.Algo = []int{5, 255, 65536, 2147483647}[r.Intn(4)]
+			if r.Intn(3) > 0 {
+				run.Ids = append(run.Ids, zvgGIdent{A: run.Algo, F: "num", ID: fmt.Sprintf("slot-x-%d", r.Intn(1000))})
 			}
 		}
 		if run.Ids == nil {
